@@ -22,17 +22,24 @@ SPEC = {
     "suites": [
         Suite(name="approval", harness="vh_approval", runner="approval",
               model_deps=["theories/Model/Approval.vo"],
-              quick_n=1500, thorough_n=20000, rewrite=build_helpers,
+              quick_n=1200, thorough_n=16000, rewrite=build_helpers,
               rule="each case: one generated configuration (1-4 programs, duplicate entries, damaged bucket syntax, "
                    "stacks named like counters) and 1-3 counter files over 1-3 builds differing in one identity field; in 35% of the cases "
                    "instead 2-3 DIFFERENT programs whose approved builds recorded counters and stacks of the SAME "
-                   "names, approved / rated / omitted differently per program, files in random order; "
+                   "names, approved / rated / omitted differently per program, files in random order; in 15% two DIFFERENT programs with the same base name, version, "
+                   "Go version and platform (golang.org/x/tools/gopls / example.com/fork/gopls ...), exactly one of "
+                   "them in the configuration; in 60% of the cases the count files carry the names rotate1 gives "
+                   "them (base name, version, platform, begin date; begin days spread over the week, so same-base "
+                   "programs differ only in the date, in both orders); "
                    "(a) the real uploader's upload report (X via crypto/rand.Reader, X = 0 in ~3%) is sent verbatim to "
                    "the real validate and to the real handleUpload (FS bucket): verdict class, HTTP status, stored; "
                    "(b) 2-4 single-item perturbations of that report (added counter / stack / cross-named item, one "
                    "identity field changed, invalid Week, invalid or unusual semver Config, X in {0,-0,denormal}, or "
-                   "none) are judged the same way; (c) the real viewer summary text and newCounterFile Active flags "
-                   "for every file, and the real uploader at X = 0 on the WHOLE week. distinct = distinct case "
+                   "none) are judged the same way; (c) the real viewer through the functions its index page is built from: files(dir, cfg) on the "
+                   "directory holding the count files (summary text, ActiveMeta, Active flags of every file) and "
+                   "reports(dir, cfg) on the local (unfiltered) and on the upload report the real uploader wrote "
+                   "(per-program summary, judged by viewer_report_check: set verdict, no approved item called "
+                   "excluded, every dropped counter listed), and the real uploader at X = 0 on the WHOLE week. distinct = distinct case "
                    "lines; every case compares all implementation verdicts with the model and evaluates "
                    "server_check / viewer_check on the implementation's verdicts; none is trivial"),
     ],
@@ -46,7 +53,10 @@ SPEC = {
                   "formed and within the configuration; the viewer calls a data set excluded iff the build is not "
                   "approved iff the uploader drops the program at every X, and lists/flags a counter iff the "
                   "uploader drops it at X = 0 from the whole week's report; what the uploader keeps of one program "
-                  "does not depend on the other programs of the report or their order. The models are tied to the code by differential execution against "
+                  "does not depend on the other programs of the report or their order; builds are told apart by all "
+                  "five identity fields (Program path in full); the report view (newTelemetryReport) never calls an "
+                  "approved counter or stack excluded and lists exactly the dropped plain counters; its blindness to "
+                  "the Stacks of a report is exhibited as finding 19 (class viewer-report-stack-omitted). The models are tied to the code by differential execution against "
                   "the real createReport, validate, handleUpload, summary and newCounterFile.",
     "level_note": "Trusted: Coq kernel+VM, extraction, OCaml glue, Go harness/generators, the two helper processes "
                   "(injected exporter in package view; init hook in package main of telemetrygodev). "
@@ -63,5 +73,5 @@ SPEC = {
         "html.EscapeString / html/template only escape text: the viewer's summary is classified by its fixed phrases",
     ],
     "trusted_base": [],
-    "own_objects": ["theories/Props/C11.vo", "theories/Proofs/ReportPrograms.vo", "theories/Proofs/ApprovalOracle.vo", "theories/Proofs/ApprovalFacts.vo", "theories/Model/Approval.vo"],
+    "own_objects": ["theories/Props/C11.vo", "theories/Proofs/ApprovalReports.vo", "theories/Proofs/ReportPrograms.vo", "theories/Proofs/ApprovalOracle.vo", "theories/Proofs/ApprovalFacts.vo", "theories/Model/Approval.vo"],
 }
